@@ -141,7 +141,11 @@ for line in open(os.path.join(VERIF, 'known_findings.txt')):
         r = sh(['git', 'apply', alt], cwd=REPO) if os.path.exists(alt) else r
     if r.returncode != 0:
         report(name, False, 'fix does not reverse-apply'); restore(); continue
+    # (a defect that exists only in the `instrumentation` configuration is seen by the thorough tier only: `tier=thorough` in the line)
+    if 'tier=thorough' in line:
+        env['VERIF_TIER'] = 'thorough'
     rc, keys, fatal, tail = run_checks([prop])[prop]
+    env.pop('VERIF_TIER', None)
     report(name + '/' + prop, rc == 1 and not fatal, ('-> ' + '; '.join(keys[:2]))[:150] if rc == 1 else 'rc=%d %s' % (rc, tail))
     restore()
 if '--keep' not in sys.argv:
